@@ -61,7 +61,7 @@ func genC07Script(r *wk.Rand, tag string) []c07Item {
 				run = wk.Pick(r, runs) // duplicate run ID
 			}
 			step := wk.Pick(r, []string{"echo", "echo", "echo2", "sig", "sig", "nosuchstep"})
-			mode := wk.Pick(r, []string{"ok", "ok", "ok", "err", "undeclared", "badout", "panic", "gated", "gated"})
+			mode := wk.Pick(r, []string{"ok", "ok", "ok", "err", "undeclared", "badout", "panic", "gated", "gated", "badpanic", "badundeclared"})
 			var cfg any = map[string]any{"nonce": run, "mode": mode, "n": int64(i)}
 			if r.Chance(15) {
 				cfg = wk.Pick(r, []any{map[string]any{"n": "x"}, "scalar", nil, map[string]any{"nonce": run, "zzz": 1}, []any{}})
@@ -171,7 +171,7 @@ func c07Directed(r *wk.Rand) [][]c07Item {
 	wrap := func(mid ...c07Item) {
 		n++
 		tag := fmt.Sprintf("d%d", n)
-		for _, firstMode := range []string{"ok", "gated", "panic"} {
+		for _, firstMode := range []string{"ok", "gated", "panic", "badpanic"} {
 			a := ws(tag+"-a-"+firstMode, "sig", firstMode)
 			sc := []c07Item{startItem, a}
 			sc = append(sc, mid...)
@@ -214,7 +214,7 @@ func c07Directed(r *wk.Rand) [][]c07Item {
 	var many []c07Item
 	many = append(many, startItem)
 	for i := 0; i < 8; i++ {
-		many = append(many, ws(fmt.Sprintf("p%d", i), "echo", []string{"panic", "undeclared", "badout", "gated"}[i%4]))
+		many = append(many, ws(fmt.Sprintf("p%d", i), "echo", []string{"panic", "undeclared", "badout", "gated", "badpanic", "badundeclared"}[i%6]))
 	}
 	out = append(out, many, append(append([]c07Item{}, many...), done))
 	return out
